@@ -63,7 +63,7 @@ def align8 (n : Nat) : Nat := n + padLen n 8
 def endianOfByte (b : UInt8) : Option Endian :=
   if b = 0x6c then some .little else if b = 0x42 then some .big else none
 
-def Endian.toByte : Endian → UInt8
+def _root_.Dbus.Spec.Endian.toByte : Endian → UInt8
   | .little => 0x6c
   | .big => 0x42
 
